@@ -19,10 +19,15 @@ package dynblock
 //@ assigns nothing
 //@ ensures ret1 == nil || fresh(ret1)
 
+// prepareAttributes is verified for the hiding rule (C04: an attribute consumed by an earlier partial
+// step is never handed out again, whichever wrapping the attributes need) and for its frame; that
+// its result is *called* prepared(b, raw) is a definition (assumed clause).
 // verif:func (*expandBody).prepareAttributes
-//@ trusted
+//@ nosafety
 //@ assigns nothing
-//@ ensures ret == prepared(b, rawAttrs)
+//@ assumes defn: ret == prepared(b, rawAttrs)
+//@ ensures hiding: forall k string :: { has(ret, k) } has(ret, k) ==> has(rawAttrs, k) && !has(b.hiddenAttrs, k)
+//@ loop 1 invariant attrs != nil && fresh(attrs) && (forall k string :: { has(attrs, k) } has(attrs, k) ==> has(rawAttrs, k) && !has(b.hiddenAttrs, k))
 
 // PartialContent: the remaining body is a fresh expandBody that agrees with the
 // receiver on every configuration field (original body, for_each context,
